@@ -958,7 +958,7 @@ End Ops.
 (** the behaviour of the tree the check runs against; the coordinator switches a field to [true] when
     the corresponding fix has landed in /repo (the model driver is extracted with this definition) *)
 Definition current_behaviour : behaviour :=
-  {| b_df_checks := false;            (* open: #7 *)
+  {| b_df_checks := true;             (* fixed in /repo: bb6b709 (#7) *)
      b_df_cols_check := false;        (* open: #26 *)
      b_mtag_pos_first := false;       (* open: #8 *)
      b_array_checks_first := false;   (* open: #9 #32 *)
